@@ -490,10 +490,9 @@ func c02Classify(f *c02Failure, min []byte) string {
 		site = regexp.MustCompile(`[^A-Za-z0-9_.:()*\[\]-]+`).ReplaceAllString(site, "_")
 		return "panic/" + c02Trunc(site, 140)
 	default:
-		if f.sig != "" {
-			// a runaway recursion is classed by its cycle of functions (the root cause)
-			return "runaway-recursion/" + f.sig
-		}
+		// recognised constructs first (narrowest), then the recursion cycle of a stack overflow
+		// (names the root cause; NOT used when it is the generic structural-expansion cycle,
+		// which any lost cycle check would produce), then the bare failure kind
 		if c02HasBoundWithRequired(min) {
 			return "struct-embeds-ordered-bound-and-required-field"
 		}
@@ -502,6 +501,9 @@ func c02Classify(f *c02Failure, min []byte) string {
 		}
 		if c02CloseOfEnclosing(min) {
 			return "close-builtin-of-enclosing-field"
+		}
+		if f.sig != "" && f.sig != "adt.(*Vertex).unify+adt.(*nodeContext).completeAllArcs" {
+			return "runaway-recursion/" + f.sig
 		}
 		return f.kind
 	}
